@@ -4,6 +4,8 @@ package main
 // term (Model/Ast.v) for the model.
 
 import (
+	"encoding/json"
+	"math"
 	"fmt"
 	"strconv"
 	"strings"
@@ -29,6 +31,9 @@ type Expr struct {
 	Star  bool        `json:"star,omitempty"` // COUNT(*)
 	Qual  string      `json:"qual,omitempty"`
 	Name  string      `json:"name,omitempty"`
+	// Spell (num only): the literal as written in the SQL text when it is not the canonical decimal print of Num
+	// (zero-padded, exponent form, trailing .0). Observe verifies that it denotes Num.
+	Spell string `json:"spell,omitempty"`
 }
 
 type Item struct {
@@ -76,6 +81,7 @@ type Stmt struct {
 	Limit      *int       `json:"limit,omitempty"`
 	Offset     *int       `json:"offset,omitempty"`
 	LimitComma bool       `json:"limit_comma,omitempty"` // LIMIT off, n spelling
+	ZeroPad    int        `json:"zero_pad,omitempty"`    // LIMIT / OFFSET literals written with this many leading zeros
 	// Raw: literal SQL text, for checks that do not consult the model (C11 purity over features the model lacks);
 	// rendered to Coq as an empty SELECT over dual
 	Raw string `json:"raw,omitempty"`
@@ -142,6 +148,9 @@ func (e *Expr) SQL() string {
 	case "col":
 		return sqlPath(e.Path)
 	case "num":
+		if e.Spell != "" {
+			return e.Spell
+		}
 		return sqlNum(e.Num)
 	case "str":
 		return sqlString(e.Str)
@@ -354,13 +363,14 @@ func (s *Stmt) limitSQL() string {
 	if s.Limit == nil {
 		return ""
 	}
+	lit := func(n int) string { return strings.Repeat("0", s.ZeroPad) + strconv.Itoa(n) }
 	if s.Offset == nil {
-		return fmt.Sprintf(" LIMIT %d", *s.Limit)
+		return " LIMIT " + lit(*s.Limit)
 	}
 	if s.LimitComma {
-		return fmt.Sprintf(" LIMIT %d, %d", *s.Offset, *s.Limit)
+		return " LIMIT " + lit(*s.Offset) + ", " + lit(*s.Limit)
 	}
-	return fmt.Sprintf(" LIMIT %d OFFSET %d", *s.Limit, *s.Offset)
+	return " LIMIT " + lit(*s.Limit) + " OFFSET " + lit(*s.Offset)
 }
 
 // ---------- Coq rendering ----------
@@ -627,4 +637,152 @@ func coqEngineObs(o engineOut) string {
 	default:
 		return "Panic"
 	}
+}
+
+// respell gives some non-negative whole-number literals of a statement another legal spelling (zero-padded, exponent
+// form, trailing .0) and sometimes zero-pads LIMIT / OFFSET: the value of a literal does not depend on how it is written.
+func respell(r *Rand, q *Stmt) bool {
+	changed := false
+	var walkE func(e *Expr)
+	var walkS func(s *Stmt)
+	walkE = func(e *Expr) {
+		if e == nil {
+			return
+		}
+		if e.K == "num" && e.Spell == "" && e.Num >= 0 && e.Num == math.Trunc(e.Num) && e.Num < 1e15 && r.Chance(35) {
+			n := int64(e.Num)
+			switch r.Intn(5) {
+			case 0:
+				e.Spell = "0" + strconv.FormatInt(n, 10)
+			case 1:
+				e.Spell = "00" + strconv.FormatInt(n, 10)
+			case 2:
+				e.Spell = strconv.FormatInt(n, 10) + ".0"
+			case 3:
+				e.Spell = strconv.FormatFloat(e.Num, 'e', -1, 64)
+			default:
+				e.Spell = strings.ToUpper(strconv.FormatFloat(e.Num, 'e', -1, 64))
+			}
+			changed = true
+		}
+		for _, x := range []*Expr{e.A, e.B, e.C, e.Else} {
+			walkE(x)
+		}
+		for _, x := range e.Items {
+			walkE(x)
+		}
+		for _, w := range e.Whens {
+			walkE(w[0])
+			walkE(w[1])
+		}
+		if e.Q != nil {
+			walkS(e.Q)
+		}
+	}
+	var walkF func(f *From)
+	walkF = func(f *From) {
+		if f == nil {
+			return
+		}
+		walkE(f.On)
+		walkF(f.L)
+		walkF(f.R)
+		if f.Q != nil {
+			walkS(f.Q)
+		}
+	}
+	walkS = func(s *Stmt) {
+		if s == nil {
+			return
+		}
+		if s.Limit != nil && *s.Limit < 1<<40 && r.Chance(35) {
+			s.ZeroPad = 1 + r.Intn(2)
+			changed = true
+		}
+		walkE(s.Where)
+		walkE(s.Having)
+		for _, it := range s.Items {
+			walkE(it.E)
+		}
+		walkF(s.From)
+		walkS(s.L)
+		walkS(s.R)
+		for _, c := range s.With {
+			walkS(c.Q)
+		}
+	}
+	walkS(q)
+	return changed
+}
+
+// spellsOK: every re-spelt literal of the statement denotes its Num (so a replay file cannot state one number and run another).
+func spellsOK(q *Stmt) bool {
+	raw, err := json.Marshal(q)
+	if err != nil {
+		return false
+	}
+	var v any
+	if json.Unmarshal(raw, &v) != nil {
+		return false
+	}
+	ok := true
+	var walk func(x any)
+	walk = func(x any) {
+		switch t := x.(type) {
+		case map[string]any:
+			if sp, has := t["spell"].(string); has {
+				n, _ := t["num"].(float64)
+				f, err := strconv.ParseFloat(sp, 64)
+				if err != nil || f != n {
+					ok = false
+				}
+			}
+			for _, y := range t {
+				walk(y)
+			}
+		case []any:
+			for _, y := range t {
+				walk(y)
+			}
+		}
+	}
+	walk(v)
+	return ok
+}
+
+// qualifyCols returns a copy of e in which every column reference is prefixed with the alias (subqueries untouched).
+func qualifyCols(e *Expr, alias string) *Expr {
+	if e == nil {
+		return nil
+	}
+	c := *e
+	switch e.K {
+	case "col":
+		c.Path = append([]string{alias}, e.Path...)
+		return &c
+	case "agg":
+		if len(e.Path) > 0 {
+			c.Path = append([]string{alias}, e.Path...)
+		}
+		return &c
+	case "sub", "exists", "insub":
+		if e.K == "insub" {
+			c.A = qualifyCols(e.A, alias)
+		}
+		return &c
+	}
+	c.A, c.B, c.C, c.Else = qualifyCols(e.A, alias), qualifyCols(e.B, alias), qualifyCols(e.C, alias), qualifyCols(e.Else, alias)
+	if e.Items != nil {
+		c.Items = make([]*Expr, len(e.Items))
+		for i, x := range e.Items {
+			c.Items[i] = qualifyCols(x, alias)
+		}
+	}
+	if e.Whens != nil {
+		c.Whens = make([][2]*Expr, len(e.Whens))
+		for i, w := range e.Whens {
+			c.Whens[i] = [2]*Expr{qualifyCols(w[0], alias), qualifyCols(w[1], alias)}
+		}
+	}
+	return &c
 }
